@@ -5,8 +5,8 @@ package zz_verif
 import (
 	"bytes"
 	"context"
-	"errors"
 	"encoding/hex"
+	"errors"
 
 	"berty.tech/go-ipfs-log/entry"
 	idp "berty.tech/go-ipfs-log/identityprovider"
